@@ -1026,7 +1026,7 @@ func fmtCLI(spok, out string, seed int64, shard int, tier string, st *cstStats, 
 			fmt.Fprintf(bo, "C15 %s a spokfile of %d bytes with %d comment lines: after `spok --fmt` the file has %d bytes and %d comment lines\n", tag, len(src), c0, len(got), c1)
 		}
 		w, g := parseOnce(src), parseOnce(string(got))
-		if w.err == nil && (g.err != nil || sem(g.tree) != sem(w.tree)) {
+		if w.err == nil && !w.hang && !g.hang && w.pnc == "" && g.pnc == "" && (g.err != nil || sem(g.tree) != sem(w.tree)) { // (a parse cut short by the watchdog on a loaded machine decides nothing)
 			st.OracleFail["C07"]++
 			fmt.Fprintf(bo, "C07 %s a spokfile of %d bytes: the %d bytes written by `spok --fmt` do not define the same variables and tasks\n", tag, len(src), len(got))
 		}
